@@ -109,6 +109,17 @@ def _call(ctx, kind, a, dt, s, e):
     im = ctx.lib.im
     if kind == 'sumsq':
         return lambda se: im.calc_sig_dur_vals(a, dt, start=s, end=e, se=se)
+    if kind == 'arias_history':
+        # a long-lived object: statistics were generated for an earlier record, then the values were replaced
+        import warnings
+        import numpy as _np
+        with warnings.catch_warnings():
+            warnings.simplefilter('ignore')
+            sig = ctx.lib.AccSignal(_np.array([0.5, -3.0, 0.25, 4.0, -1.0, 0.75, 2.0, -0.5][:max(2, len(a))] + [1.5] * max(0, len(a) - 8)), dt)
+            sig.generate_cumulative_stats()
+            _ = sig.velocity, sig.pga
+        sig.reset_values(a)
+        return lambda se: im.calc_sig_dur(sig, start=s, end=e, se=se)
     sig = ctx.lib.AccSignal(a, dt)
     if kind == 'arias':
         return lambda se: im.calc_sig_dur(sig, start=s, end=e, se=se)
@@ -118,7 +129,8 @@ def _call(ctx, kind, a, dt, s, e):
 def record(ctx, n, kind, start, end, k=0, alpha=None, dt=0.5):
     """(b) symbolic record through the real cumulative measure, concrete fractions."""
     a = ctx.arr('a', n, -10.0, 10.0)
-    r = _check_crossing(ctx, _call(ctx, kind, a, dt, start, end), _between(_cum(list(a), dt, kind), start, end), n, dt, '')
+    r = _check_crossing(ctx, _call(ctx, kind, a, dt, start, end),
+                        _between(_cum(list(a), dt, 'arias' if kind == 'arias_history' else kind), start, end), n, dt, '')
     if r is None:
         return
     if k:
@@ -210,6 +222,9 @@ def obligations(tier, seed):
             for k in ((1, 2) if q else (1, 2, 3)):
                 yield Ob('record', {'n': n, 'kind': kind, 'start': 0.25, 'end': 0.75, 'k': k}, query_ms=60000)
             yield Ob('record', {'n': n, 'kind': kind, 'start': 0.25, 'end': 0.75, 'alpha': -2.5}, query_ms=60000)
+    for n in ((3, 4) if q else (3, 4, 5)):
+        for (s_, e_) in ((0.05, 0.95), (0.25, 0.75)):
+            yield Ob('record', {'n': n, 'kind': 'arias_history', 'start': s_, 'end': e_}, query_ms=60000, timeout_s=1500)
     yield Ob('deprecated_alias', {'n': 4})
     # n = 10 did not finish within 1500 s in two end-to-end thorough runs (path count doubles per sample): 9 is attempted as
     # an optional obligation (reported, never counted as discharged when it runs out of budget)
